@@ -1,7 +1,7 @@
 SPECIFICATION Spec
 CONSTANTS
   Agents = {"a1", "a2"}
-  Ids = {1, 2, 3}
+  Ids = {0, 1, 2}
   SendLogs = TRUE
   MaxOps = 12
 INVARIANTS Emit
